@@ -320,11 +320,15 @@ type TypeD struct {
 	Name  string
 	Attrs []AttrD
 	Rels  []RelD
+	// IDPos: where the struct realisation declares its ID field: 0 first (the usual layout),
+	// 1 after the attributes, 2 last
+	IDPos int
 }
 
 func (d TypeD) key() string {
 	var b strings.Builder
 	b.WriteString(d.Name)
+	fmt.Fprintf(&b, "@%d", d.IDPos)
 	for _, a := range d.Attrs {
 		fmt.Fprintf(&b, "|a:%s:%s", a.Name, a.K)
 	}
@@ -358,15 +362,22 @@ func (d TypeD) StructType() reflect.Type {
 	if t, ok := structCache[d.key()]; ok {
 		return t
 	}
-	fields := []reflect.StructField{{
+	idField := reflect.StructField{
 		Name: "ID", Type: reflect.TypeOf(""),
 		Tag: reflect.StructTag(fmt.Sprintf(`json:"id" api:%q`, d.Name)),
-	}}
+	}
+	var fields []reflect.StructField
+	if d.IDPos == 0 {
+		fields = append(fields, idField)
+	}
 	for i, a := range d.Attrs {
 		fields = append(fields, reflect.StructField{
 			Name: fmt.Sprintf("A%d", i), Type: a.K.GoType(),
 			Tag: reflect.StructTag(fmt.Sprintf(`json:%q api:"attr"`, a.Name)),
 		})
+	}
+	if d.IDPos == 1 {
+		fields = append(fields, idField)
 	}
 	for i, r := range d.Rels {
 		tag := "rel," + r.Target
@@ -381,6 +392,9 @@ func (d TypeD) StructType() reflect.Type {
 			Name: fmt.Sprintf("R%d", i), Type: ft,
 			Tag: reflect.StructTag(fmt.Sprintf(`json:%q api:%q`, r.Name, tag)),
 		})
+	}
+	if d.IDPos == 2 {
+		fields = append(fields, idField)
 	}
 	t := reflect.StructOf(fields)
 	structCache[d.key()] = t
